@@ -241,6 +241,91 @@ func cfgEqual(a, b config.Network) bool {
 	return reflect.DeepEqual(a, b)
 }
 
+// c16RawDiff decodes a configuration document with the TOML library alone (plain strings and
+// numbers, none of config's types or defaults) and compares it with the view of the
+// configuration in force. It returns "" or "<field> <detail>".
+func c16RawDiff(text string, v *verifview.View) string {
+	var raw struct {
+		IRC struct {
+			Operators []struct{ Name, Password string }
+			Services  []struct{ Password string }
+		}
+		SessionExpiration       string
+		PostMessageCooloff      string
+		TrustedBridges          map[string]string
+		CaptchaURL              string
+		CaptchaHMACSecret       string
+		CaptchaRequiredForLogin bool
+		MaxSessions             uint64
+		MaxChannels             uint64
+		WhitelistedOrigins      map[string]bool
+	}
+	if _, err := toml.Decode(text, &raw); err != nil {
+		return ""
+	}
+	c := v.Config
+	dur := func(s string) int64 {
+		if s == "" {
+			return 0
+		}
+		d, err := time.ParseDuration(s)
+		if err != nil {
+			return -1
+		}
+		return int64(d)
+	}
+	if want := dur(raw.SessionExpiration); want >= 0 && want != c.SessionExpiration {
+		return fmt.Sprintf("SessionExpiration posted %q, in force %v", raw.SessionExpiration, time.Duration(c.SessionExpiration))
+	}
+	if want := dur(raw.PostMessageCooloff); want >= 0 && want != c.PostMessageCooloff {
+		return fmt.Sprintf("PostMessageCooloff posted %q, in force %v", raw.PostMessageCooloff, time.Duration(c.PostMessageCooloff))
+	}
+	if len(raw.IRC.Operators) != len(c.Operators) {
+		return fmt.Sprintf("Operators posted %d, in force %d", len(raw.IRC.Operators), len(c.Operators))
+	}
+	for i, op := range raw.IRC.Operators {
+		if c.Operators[i] != [2]string{op.Name, op.Password} {
+			return fmt.Sprintf("Operators entry %d posted %q, in force %q", i, op.Name, c.Operators[i][0])
+		}
+	}
+	if len(raw.IRC.Services) != len(c.Services) {
+		return fmt.Sprintf("Services posted %d passwords, in force %d", len(raw.IRC.Services), len(c.Services))
+	}
+	for i, sv := range raw.IRC.Services {
+		if c.Services[i] != sv.Password {
+			return fmt.Sprintf("Services entry %d differs", i)
+		}
+	}
+	if !mapsEqual(raw.TrustedBridges, c.TrustedBridges) {
+		return fmt.Sprintf("TrustedBridges posted %v, in force %v", raw.TrustedBridges, c.TrustedBridges)
+	}
+	if raw.CaptchaURL != c.CaptchaURL {
+		return fmt.Sprintf("CaptchaURL posted %q, in force %q", raw.CaptchaURL, c.CaptchaURL)
+	}
+	if !strings.EqualFold(raw.CaptchaHMACSecret, c.CaptchaHMACSecret) {
+		return fmt.Sprintf("CaptchaHMACSecret posted %q, in force %q", raw.CaptchaHMACSecret, c.CaptchaHMACSecret)
+	}
+	if raw.CaptchaRequiredForLogin != c.CaptchaRequiredForLogin {
+		return fmt.Sprintf("CaptchaRequiredForLogin posted %v, in force %v", raw.CaptchaRequiredForLogin, c.CaptchaRequiredForLogin)
+	}
+	if raw.MaxSessions != c.MaxSessions || raw.MaxChannels != c.MaxChannels {
+		return fmt.Sprintf("MaxSessions/MaxChannels posted %d/%d, in force %d/%d", raw.MaxSessions, raw.MaxChannels, c.MaxSessions, c.MaxChannels)
+	}
+	var wo []string
+	for k, on := range raw.WhitelistedOrigins {
+		if on {
+			wo = append(wo, k)
+		}
+	}
+	sort.Strings(wo)
+	got := append([]string(nil), c.WhitelistedOrigins...)
+	sort.Strings(got)
+	if strings.Join(wo, "\x00") != strings.Join(got, "\x00") {
+		return fmt.Sprintf("WhitelistedOrigins posted %v, in force %v", wo, got)
+	}
+	return ""
+}
+
 func mapsEqual(a, b map[string]string) bool {
 	if len(a) != len(b) {
 		return false
@@ -321,6 +406,13 @@ func TestVerifC16(t *testing.T) {
 				live := ircServer.VerifView().Config.Banned
 				if err == nil && (!mapsEqual(postedRaw.Banned, servedRaw.Banned) || !mapsEqual(postedRaw.Banned, live)) {
 					viol("config-not-in-force:bans", fmt.Sprintf("accepted update lists the bans %v, GET /config serves %v, the state machine enforces %v", postedRaw.Banned, servedRaw.Banned, live))
+				}
+				// every other field: the posted document decoded without the code under test against
+				// the configuration the state machine has in force
+				if err == nil {
+					if d := c16RawDiff(b.Text, ircServer.VerifView()); d != "" {
+						viol("config-not-in-force:"+strings.SplitN(d, " ", 2)[0], "after an accepted update the state machine's configuration differs from the posted document: "+d)
+					}
 				}
 				if err == nil && (err2 != nil || !cfgEqual(want, got)) {
 					viol("config-not-in-force", fmt.Sprintf("GET /config after an accepted update does not decode to the posted configuration (err %v):\nposted %+v\nserved %+v", err2, want, got))
